@@ -21,6 +21,14 @@ def run(prop, seed, budget_s, broken):
     # first: is the property itself violated on the very inputs on which model and code differ?
     seed_fn = globals().get("seed_" + prop)
     if seed_fn is not None:
+        # state-dependent defects: replay the very sequence of calls the correspondence made, up
+        # to the first disagreement, and evaluate the property there, in that state
+        try:
+            r = _replay_sequence(prop, seed, broken, seed_fn)
+        except Exception:  # noqa: BLE001
+            r = None
+        if r:
+            return r
         for m in broken.get("correspondence_mismatches", []):
             try:
                 r = seed_fn(m)
@@ -30,6 +38,55 @@ def run(prop, seed, budget_s, broken):
                 r["from_correspondence_mismatch"] = True
                 return r
     return fn(rng, time.time() + budget_s, broken)
+
+
+def _replay_sequence(prop, seed, broken, seed_fn):
+    """in a fresh interpreter: regenerate the correspondence groups exactly as stage B did, and at
+    the first disagreeing call evaluate the property there, in that state, on the live objects"""
+    import subprocess
+    import tempfile
+    ms = broken.get("correspondence_mismatches", [])
+    if not ms or not ms[0].get("request"):
+        return None
+    with tempfile.NamedTemporaryFile("w", suffix=".json", delete=False) as f:
+        json.dump({"prop": prop, "seed": seed, "tier": broken.get("tier", "quick"),
+                   "groups": broken.get("groups", []), "request": ms[0]["request"],
+                   "group": ms[0].get("group")}, f)
+        path = f.name
+    try:
+        p = subprocess.run([sys.executable, os.path.abspath(__file__), "--sequence", path],
+                           stdout=subprocess.PIPE, stderr=subprocess.PIPE, timeout=900,
+                           env=dict(os.environ))
+        out = p.stdout.decode().strip().split("\n")[-1] if p.stdout else ""
+        return json.loads(out) if out.startswith("{") else None
+    finally:
+        os.unlink(path)
+
+
+def _sequence_main(path):
+    import importlib
+    import check as _check
+    spec_all = json.load(open(path))
+    prop, seed, tier = spec_all["prop"], spec_all["seed"], spec_all["tier"]
+    seed_fn = globals().get("seed_" + prop)
+    for spec in spec_all["groups"]:
+        mod = importlib.import_module(spec["module"])
+        gen = mod.GROUPS[spec["group"]]
+        n = spec["thorough"] if tier == "thorough" else spec["quick"]
+        rng = random.Random((seed * 1000003) ^ _check.hash_str(spec["group"]))
+        count = 0
+        for c in gen(rng, n, tier):
+            count += 1
+            if spec["group"] == spec_all["group"] and c.request[:400] == spec_all["request"]:
+                m = {"function": c.fn, "input": c.descr, "request": c.request, "live": c.live}
+                r = seed_fn(m) if seed_fn else None
+                if r:
+                    r["sequence"] = ("a fresh interpreter makes the calls of the correspondence groups "
+                                     "in order (VERIF_SEED=%d); this is call %d of group %r" % (
+                                         seed, count, spec["group"]))
+                    print(json.dumps(r, default=str))
+                return
+    return
 
 
 def replay(prop, path):
@@ -753,13 +810,24 @@ def _tier_tol(lat, rising, t_utc):
     return tol
 
 
-def _c01_event(o, d, z, fn, arg, rising, with_refraction=True):
+def _c01_event(o, d, z, fn, arg, rising, with_refraction=True, given=None):
     """returns a failure description or None for one event call"""
     import astral.sun as sun
     from astral import SunDirection
     from oracle import sun_almanac as A
     tz = z.tzinfo
     di = SunDirection.RISING if rising else SunDirection.SETTING
+    if given is not None:
+        class _G:
+            pass
+        _orig = (sun.dawn, sun.dusk, sun.sunrise, sun.sunset, sun.time_at_elevation)
+        def _ret(*a, **k):
+            if given[0] == "ok":
+                return given[1]
+            raise given[1]
+        sun_ns = _G()
+        sun_ns.dawn = sun_ns.dusk = sun_ns.sunrise = sun_ns.sunset = sun_ns.time_at_elevation = _ret
+        sun = sun_ns
     try:
         if fn == "dawn_dusk":
             t = (sun.dawn if rising else sun.dusk)(o, d, arg, tz)
@@ -1187,14 +1255,19 @@ def _moon_target(dist=60.3):
     return -(1896.0 / 3600.0) + 41.685 / dist      # ≈ +0.16°: altitude of the centre at rise/set
 
 
-def _c13_one(lat, lon, d, z, which):
+def _c13_one(lat, lon, d, z, which, given=None):
     import astral.moon as moon
     from astral import Observer
     o = Observer(lat, lon)
-    try:
-        t = getattr(moon, which)(o, d, z.tzinfo)
-    except ValueError:
-        return None
+    if given is not None:
+        if given[0] != "ok":
+            return None
+        t = given[1]
+    else:
+        try:
+            t = getattr(moon, which)(o, d, z.tzinfo)
+        except ValueError:
+            return None
     if t is None:
         return None
     el = moon.elevation(o, t)
@@ -1370,7 +1443,8 @@ def _seed_sun_event(m, checker):
     inp = m["input"]
     if "observer" not in inp or "date" not in inp or "zone" not in inp:
         return None
-    o = _obs_from_descr(inp["observer"])
+    live = m.get("live") or {}
+    o = live.get("observer") or _obs_from_descr(inp["observer"])
     d = datetime.date.fromisoformat(inp["date"])
     z = _zone_from_descr(inp["zone"])
     return checker(o, d, z, m["function"], inp)
@@ -1423,6 +1497,14 @@ def seed_C01(m):
         if isinstance(o.elevation, tuple) or abs(o.latitude) > 89.8:
             return None
         out = None
+        given = (m.get("live") or {}).get("result")
+        if given is not None and given[0] == "ok" and fn in ("dawn", "dusk", "sunrise", "sunset"):
+            spec = ("dawn_dusk", inp.get("depression", 6.0)) if fn in ("dawn", "dusk") else ("rise_set", None)
+            r = _c01_event(o, d, z, spec[0], spec[1], fn in ("dawn", "sunrise"), True, given)
+            if r:
+                return _descr(o, d, z, function=spec[0], arg=spec[1], rising=fn in ("dawn", "sunrise"),
+                              with_refraction=True, clause=r,
+                              note="evaluated on the value returned in that sequence of calls")
         for rising in (True, False):
             for spec in (("dawn_dusk", inp.get("depression", 6.0), True), ("rise_set", None, True),
                          ("tae", inp.get("elevation", 6.0), inp.get("with_refraction", True))):
@@ -1468,11 +1550,13 @@ def seed_C13(m):
     inp = m["input"]
     if m["function"] not in ("moonrise", "moonset"):
         return None
+    given = (m.get("live") or {}).get("result")
     r = _c13_one(inp["latitude"], inp["longitude"], datetime.date.fromisoformat(inp["date"]),
-                 _zone_from_descr(inp["zone"]), m["function"])
+                 _zone_from_descr(inp["zone"]), m["function"], given)
     if r:
         return {"clause": r, "latitude": inp["latitude"], "longitude": inp["longitude"],
-                "date": inp["date"], "zone": inp["zone"], "which": m["function"]}
+                "date": inp["date"], "zone": inp["zone"], "which": m["function"],
+                "note": "evaluated on the value returned in that sequence of calls" if given else ""}
     return None
 
 
@@ -1910,3 +1994,8 @@ def replay_C20(fi):
         return _c20_purity() is None
     return _c20_types(_obs_from_descr(fi["observer"]), datetime.date.fromisoformat(fi["date"]),
                       _zone_from_descr(fi["zone"])) is None
+
+
+if __name__ == "__main__" and len(sys.argv) > 2 and sys.argv[1] == "--sequence":
+    sys.path.insert(0, os.path.dirname(os.path.abspath(__file__)))
+    _sequence_main(sys.argv[2])
